@@ -512,6 +512,45 @@ def run(ctx):
                           {"probe": "PutState(a0, bal 7); h := GetAccountState(a0); h.AddBalance(1); GetState(a0).Balance != 7"}))
     corr_broken = None
 
+    # ---- StateDB.Update with a fault: some staged storages cannot be folded in (storage root names a node missing
+    # from the store).  A failed Update must leave every account entry, the buffer revision, the root and every read
+    # as before the call (updateStorage takes ONE snapshot before the loop and reverts to it).  Repeated: map order.
+    fcases = []
+    for plain in (0, 2):
+        for healthy in ((1, 3, 6) if quick else (1, 2, 3, 4, 6, 9)):
+            for bad in (0, 1, 2):
+                for pre in (False, True):
+                    fcases.append({"plain": plain, "healthy": healthy, "bad": bad, "precommit": pre, "trials": 4 if quick else 12})
+    fin, fout = os.path.join(ctx.workdir, "c12_fault.in"), os.path.join(ctx.workdir, "c12_fault.out")
+    json.dump(fcases, open(fin, "w"))
+    if os.path.exists(fout):
+        os.remove(fout)
+    rc_f, log_f = ctx.run_bin(binp, ["-test.run", "TestVerifC12Fault"], env={"VERIF_IN": fin, "VERIF_OUT": fout})
+    if rc_f != 0 or not os.path.exists(fout):
+        raise RuntimeError("C12 fault engine failed:\n" + log_f[-3000:])
+    fres = json.load(open(fout))
+    nfail = nok = 0
+    for fc, trials in zip(fcases, fres):
+        for tr in trials:
+            if tr["err"] != (fc["bad"] > 0):
+                pred_fail.append(("C12:failed-update", "StateDB.Update %s" % ("succeeds although a staged storage cannot be updated" if fc["bad"] else
+                                  "fails without a fault"), {"fault_case": fc, "trial": tr}))
+                break
+            if tr["err"]:
+                nfail += 1
+                if tr["after"] != tr["before"]:
+                    pred_fail.append(("C12:failed-update-leaves-writes", "a failed StateDB.Update (one staged storage cannot be folded in) leaves "
+                                      "account entries / a buffer revision / reads that differ from the state before the call",
+                                      {"fault_case": fc, "trial": tr}))
+                    break
+            else:
+                nok += 1
+                if tr["after"]["reads"] != tr["before"]["reads"] or tr["after"]["rev"] < tr["before"]["rev"] + fc["healthy"]:
+                    pred_fail.append(("C12:failed-update", "a successful Update does not put an account entry per dirty storage or changes a read",
+                                      {"fault_case": fc, "trial": tr}))
+                    break
+    ctx.cov["update_fault_runs"] = {"cases": len(fcases), "failed_updates": nfail, "successful_updates": nok}
+
     # ---- corpus (hand-written / minimised edge cases run first)
     corpus = []
     cdir = os.path.join(ctx.verif, "corpus", "C12")
